@@ -115,6 +115,41 @@ def run_kani_batch(hs, repo, playback=False):
     return out
 
 
+def ensure_playback_files():
+    d = os.path.join(VERIF, '.cache', 'playback')
+    os.makedirs(d, exist_ok=True)
+    for m in ('lib', 'frame', 'peer_handler', 'metainfo'):
+        p = os.path.join(d, m + '.rs')
+        if not os.path.exists(p):
+            open(p, 'w').close()
+
+
+def native_playback(h, test, repo):
+    """run Kani's concrete counterexample NATIVELY against the real code (cargo kani playback); returns the outcome text"""
+    if not test:
+        return ''
+    path = os.path.join(VERIF, '.cache', 'playback', h.get('module', 'lib') + '.rs')
+    try:
+        with open(path, 'w') as f:
+            f.write(test + '\n')
+        cmd = ['cargo', 'kani', 'playback', '-Z', 'concrete-playback', '--', 'kani_concrete_playback']
+        env = _env()
+        env['CARGO_TARGET_DIR'] = os.path.join(VERIF, '.cache', 'playback-target')
+        p = subprocess.run(cmd, cwd=repo, env=env, capture_output=True, text=True, timeout=900)
+        text = p.stdout + '\n' + p.stderr
+        mm = re.search(r'test result: (\w+)\. (\d+) passed; (\d+) failed', text)
+        pm = re.search(r"panicked at ([^\n]*)\n([^\n]*)", text)
+        if mm and int(mm.group(3)) > 0:
+            return 'REPLAYED NATIVELY on the real code: the test fails -- panicked at %s: %s' % (pm.group(1) if pm else '?', pm.group(2) if pm else '')
+        if mm:
+            return 'replayed natively: the test passed (the counterexample does not reproduce natively)'
+        return 'native playback did not run: ' + text[-300:]
+    except Exception as e:
+        return 'native playback failed: %s' % e
+    finally:
+        open(path, 'w').close()
+
+
 def run_native(h, repo):
     env = _env()
     env['RUSTFLAGS'] = (env.get('RUSTFLAGS', '') + ' --cfg rdest_verif').strip()
@@ -141,6 +176,7 @@ def run_native(h, repo):
 
 
 def run_for(pid, tier, repo):
+    ensure_playback_files()
     hs = [h for h in registry() if pid in h['props'] and not (h.get('tier', 'quick') == 'thorough' and tier != 'thorough')]
     kani_hs = [h for h in hs if h['kind'] in ('complete', 'bounded')]
     batch = run_kani_batch(kani_hs, repo)
@@ -163,10 +199,12 @@ def run_for(pid, tier, repo):
                 txt += '\nthe failing input is in the panic message above; replay: ./check %s --replay %s\n\n%s\n' % (pid, path, r['out'][-1500:])
                 row['has_input'] = True
             else:
-                txt += ('\nconcrete input found by CBMC, as a unit test on the real code (add it next to the harness in /verif/hooks and run\n'
-                        '`cargo kani playback -Z concrete-playback --target-dir %s -- kani_concrete_playback`):\n%s\n'
-                        % (TARGET, test or '(kani printed no concrete test)'))
-                row['has_input'] = bool(test)
+                outcome = native_playback(h, test, repo)
+                txt += ('\nconcrete input found by CBMC, as a unit test on the real code (written to /verif/.cache/playback/%s.rs, which the hook\n'
+                        'module includes, and run with `CARGO_TARGET_DIR=%s/../playback-target cargo kani playback -Z concrete-playback -- kani_concrete_playback`):\n%s\n\n%s\n'
+                        % (h.get('module', 'lib'), TARGET, test or '(kani printed no concrete test)', outcome))
+                row['has_input'] = bool(test) and 'REPLAYED NATIVELY' in outcome
+                row['native_replay'] = outcome
             with open(path, 'w') as f:
                 f.write(txt)
             row['replay'] = path
